@@ -461,8 +461,88 @@ fn panic_across_suspension(e: &'static Engine, workers: usize, how: u8, later: u
     e.note("ok");
 }
 
+/// std keeps the "is this thread panicking" counter per OS thread. A coroutine X panics and its unwind suspends in a
+/// destructor (a sleep; a coroutine::scope waiting for a child or a cqueue drain do the same): the worker goes on to run
+/// other coroutines with the counter still raised. An innocent coroutine B that the worker runs meanwhile drops a guard
+/// of a may::sync::Mutex (`std_mutex`: of a std Mutex) it took earlier: nobody panicked while holding it, it must not
+/// be poisoned. `earlier`: before all that, one coroutine per worker went through such an unwind and finished it on
+/// the timer thread, which leaves the workers' counters raised for good (std's global fast path hides that until the
+/// next panic is in flight).
+fn stale_panic_counter(e: &'static Engine, workers: usize, std_mutex: bool, earlier: bool) {
+    rt_init(workers);
+    struct SleepDrop(u64);
+    impl Drop for SleepDrop {
+        fn drop(&mut self) {
+            coroutine::sleep(Duration::from_millis(self.0));
+        }
+    }
+    static HOLDING: AtomicBool = AtomicBool::new(false);
+    static X_UNWINDING: AtomicBool = AtomicBool::new(false);
+    static SEEN: std::sync::atomic::AtomicU32 = std::sync::atomic::AtomicU32::new(0);
+    struct Flag;
+    impl Drop for Flag {
+        fn drop(&mut self) {
+            X_UNWINDING.store(true, Ordering::SeqCst);
+        }
+    }
+    e.begin();
+    for _ in 0..if earlier { workers } else { 0 } {
+        let p = go!(|| {
+            let _d = SleepDrop(1);
+            std::panic::panic_any(31u32);
+        });
+        let _ = p.join();
+    }
+    e.quiesce();
+    let m = Arc::new(Mutex::new(0u32));
+    let sm = Arc::new(std::sync::Mutex::new(0u32));
+    let (m2, sm2) = (m.clone(), sm.clone());
+    let b = go!(move || {
+        let g1 = if std_mutex { None } else { Some(m2.lock().unwrap()) };
+        let g2 = if std_mutex { Some(sm2.lock().unwrap()) } else { None };
+        HOLDING.store(true, Ordering::SeqCst);
+        coroutine::park();
+        SEEN.store(1 + std::thread::panicking() as u32, Ordering::SeqCst);
+        drop(g1);
+        drop(g2);
+    });
+    e.wait_flag(&HOLDING);
+    e.quiesce();
+    let x = go!(|| {
+        let _d = SleepDrop(2);
+        let _f = Flag;
+        std::panic::panic_any(33u32);
+    });
+    // (no quiescence here: the clock would advance and X would finish its unwind)
+    e.wait_flag(&X_UNWINDING);
+    b.coroutine().unpark();
+    if b.join().is_err() {
+        e.fail("unexpected_panic", "the innocent coroutine panicked");
+    }
+    let _ = x.join();
+    let poisoned = if std_mutex { sm.is_poisoned() } else { m.is_poisoned() };
+    if poisoned {
+        e.fail("spurious_poison", "a mutex whose holder never panicked is poisoned: thread::panicking() was true on the holder's worker because another coroutine's unwind is suspended there (or left that thread for another one earlier)");
+    }
+    e.note(&format!("holder_saw_panicking={}", SEEN.load(Ordering::SeqCst) as i32 - 1));
+}
+
 pub fn build(quick: bool) -> Vec<Scenario> {
     let mut v = vec![];
+    for w in [1usize, 2] {
+        for (stdm, earlier) in [(false, false), (true, false), (false, true)] {
+            v.push(
+                Scenario::new(
+                    "C13",
+                    "unwind_suspended",
+                    format!("panic.unwind_suspended_on_worker.{}{}.w{}", if stdm { "std_mutex" } else { "may_mutex" }, if earlier { ".after_earlier_unwinds" } else { "" }, w),
+                    Arc::new(move |e| stale_panic_counter(e, w, stdm, earlier)),
+                )
+                .vt_horizon(100_000_000)
+                .bound(1),
+            );
+        }
+    }
     {
         for w in [1usize, 2] {
             for how in [0u8, 1, 2] {
